@@ -83,8 +83,8 @@ def infer(p, atys):
             b = rest
         return expr_type(env, b[1]), paths
     if op == "vmap":
-        n = next(t[1] for t, ax in zip(atys, p[2]) if ax)
-        ets = [t[2] if ax else t for t, ax in zip(atys, p[2])]
+        n = next((t[2][1] if ax == "ax1" else t[1]) for t, ax in zip(atys, p[2]) if ax)
+        ets = [(["arr", t[1], t[2][2]] if ax == "ax1" else t[2]) if ax else t for t, ax in zip(atys, p[2])]
         rt, ps = infer(p[1], ets)
         return ["arr", n, rt], [(i,) + q for i in range(n) for q in ps]
     if op == "scan":
@@ -235,10 +235,11 @@ def ref(p, args, ch, pre=()):
             b = rest
         return sites, ev(env, b[1])
     if op == "vmap":
-        n = next(len(a) - 1 for a, ax in zip(args, p[2]) if ax)
+        n = next((len(a[1]) - 1 if ax == "ax1" else len(a) - 1) for a, ax in zip(args, p[2]) if ax)
         sites, rets = [], []
-        for i in range(n):  # "N independent calls"
-            ea = [a[1 + i] if ax else a for a, ax in zip(args, p[2])]
+        for i in range(n):  # "N independent calls", each on its slice along the mapped axis
+            ea = [((["a"] + [row[1 + i] for row in a[1:]]) if ax == "ax1" else a[1 + i]) if ax else a
+                  for a, ax in zip(args, p[2])]
             ss, r = ref(p[1], ea, ch, pre + (i,))
             sites += ss
             rets.append(r)
